@@ -61,6 +61,13 @@ def perm_of(fn, n: int) -> list[int] | None:
 
 
 def oracle_perm(m, n: int, rng) -> str | None:
+    try:
+        return _oracle_perm(m, n, rng)
+    except Exception as ex:  # noqa: BLE001 - an exception on in-domain data is a failure of the property (not lossless)
+        return f"interleave/deinterleave raised {type(ex).__name__} ({ex}) on data of length {n}"
+
+
+def _oracle_perm(m, n: int, rng) -> str | None:
     for name, fn in (("interleave", m.interleave), ("deinterleave", m.deinterleave)):
         p = perm_of(fn, n)
         if p is None:
@@ -73,6 +80,13 @@ def oracle_perm(m, n: int, rng) -> str | None:
 
 
 def oracle_flip(m, d: bytes) -> str | None:
+    try:
+        return _oracle_flip(m, d)
+    except Exception as ex:  # noqa: BLE001
+        return f"flip_msb raised {type(ex).__name__} ({ex}) on {d.hex()[:80]}"
+
+
+def _oracle_flip(m, d: bytes) -> str | None:
     f = raw(m.flip_msb, d)
     if len(f) != len(d) or raw(m.flip_msb, f) != d:
         return f"flip_msb is not an involution on {d.hex()[:80]}"
